@@ -522,11 +522,8 @@ def gen_simple_stmt(rng, env, depth):
         d = gen_call_target(rng, env, depth)
         if d is None:
             return ("form", lab, sp, ("FAssign", gen_lhs(rng, env, depth), E()))
-        if lab and not env.knobs.get("labelled_bare_call", False):
-            # a labelled CALL without argument list is the recorded defect region: only on request
-            while d[0] == "l0" or (d[0] == "p0" and last_part(d)[0] == "l0"):
-                lab = None
-                break
+        if lab and not env.knobs.get("labelled_bare_call", False) and last_part(d)[0] == "l0":
+            lab = None      # a labelled CALL without argument list is a recorded defect region: only on request
         if k == "call":
             return ("call", lab, d)
         return ("ifcall", lab, sp, E(depth - 1), d)
@@ -562,14 +559,21 @@ def gen_simple_stmt(rng, env, depth):
         hdr = ("bin", ("bin", name("i"), "=", ("bin", lit("1"), ":", E(depth - 1))), ", ", E(depth - 1))
         return ("form", lab, sp, ("FForallAssign", hdr, gen_lhs(rng, env, depth), E()))
     if k == "stop":
-        return ("form", lab, sp, ("FStop", E(depth - 1)))
+        e = E(depth - 1)
+        if r_e(e)[:1] in ("(", ""):
+            e = lit("1")
+        return ("form", lab, sp, ("FStop", e))
     if k == "plain":
         w = rng.choice([("cycle", ""), ("exit", ""), ("return", ""), ("continue", ""), ("else", "")])
         return ("form", lab, sp, ("FPlain", w[0], w[1]))
     if k == "format":
-        return ("format", str(rng.choice([100, 200, 9000])), True, gen_ptree(rng, 2))
+        return ("format", str(rng.choice([100, 200, 9000])), not env.knobs.get("format_nospace", False) or rng.random() < 0.5,
+                gen_ptree(rng, 2))
     if k == "goto":
-        return ("goto", [rng.choice(["10", "20", "30"]) for _ in range(rng.choice([1, 2, 3]))], name(rng.choice(env.scalars or ["i"])))
+        sel = name(rng.choice(env.scalars or ["i"]))
+        if env.knobs.get("goto_expr") and env.funcs:
+            sel = ("des", ("la", env.funcs[0][0], lit("1")))
+        return ("goto", [rng.choice(["10", "20", "30"]) for _ in range(rng.choice([1, 2, 3]))], sel)
     raise ValueError(k)
 
 
@@ -672,7 +676,7 @@ def gen_type(rng, tname, earlier, fprocs, sprocs):
 
 def gen_proc_shell(rng, pname, kind=None):
     kind = kind or rng.choice(["function", "subroutine"])
-    nargs = rng.choice([0, 1, 1, 2])
+    nargs = 0 if kind == "program" else rng.choice([0, 1, 1, 2])
     return {"name": pname, "kind": kind, "nargs": nargs, "args": [f"a{i}" for i in range(nargs)], "locals": {},
             "body": [], "internal": []}
 
@@ -868,7 +872,7 @@ def layout_statements(rng, stmts, knobs):
     """physical lines for a list of statement texts: ';' joins, '&'...'&' continuations, comments"""
     lines = []
     i = 0
-    p_cut = knobs.get("p_cut", 0.03)
+    p_cut = knobs.get("p_cut", 0.015)
     while i < len(stmts):
         group = [stmts[i]]
         i += 1
@@ -890,6 +894,7 @@ def layout_statements(rng, stmts, knobs):
         inq = None
         for p in good + [len(text)]:
             seg = text[prev:p]
+            started_in = inq
             for ch in seg:
                 if inq:
                     if ch == inq:
@@ -899,9 +904,9 @@ def layout_statements(rng, stmts, knobs):
             line = ind + ("" if first else "&") + seg
             if p != len(text):
                 line += "&"
-                if not inq and rng.random() < 0.2:
+                if not inq and not started_in and rng.random() < 0.2:
                     line += " ! call commented(1)"
-            elif rng.random() < 0.15:
+            elif not started_in and rng.random() < 0.15:
                 line += " ! x = g(3)"
             lines.append(line)
             if p != len(text) and not inq and rng.random() < 0.1:
